@@ -48,8 +48,12 @@ pub trait Engine: Send + Sync {
     /// (min, max) number of 4-byte records
     fn ops_range(&self) -> (usize, usize);
     fn run(&self, case: &ByteCase, trace: bool) -> CaseReport;
-    /// A finite domain enumerated completely instead of sampled (quick and thorough alike).
-    fn enumerate(&self) -> Option<Vec<ByteCase>> {
+    /// A finite domain enumerated completely instead of sampled: number of grid points ...
+    fn enum_len(&self) -> Option<u64> {
+        None
+    }
+    /// ... and the case at a grid point (None = the point is not part of the domain).
+    fn enum_at(&self, _i: u64) -> Option<ByteCase> {
         None
     }
 }
@@ -195,16 +199,17 @@ pub fn worker(plan: &Plan, a: &WorkerArgs) -> i32 {
             Ok(())
         };
         let mut failure: Option<ByteCase> = None;
-        if let Some(all) = eng.enumerate() {
+        if let Some(n) = eng.enum_len() {
             // exhaustive domain, split among workers
-            for (i, c) in all.iter().enumerate() {
-                if (i as u64) % a.nworkers != a.index {
-                    continue;
+            let mut i = a.index;
+            while i < n {
+                if let Some(c) = eng.enum_at(i) {
+                    if run_one(&c, &mut acc, &mut cur).is_err() {
+                        failure = Some(c.clone());
+                        break;
+                    }
                 }
-                if run_one(c, &mut acc, &mut cur).is_err() {
-                    failure = Some(c.clone());
-                    break;
-                }
+                i += a.nworkers;
             }
         } else {
             let share = job.cases / a.nworkers + if a.index < job.cases % a.nworkers { 1 } else { 0 };
@@ -598,7 +603,7 @@ pub fn parent(plan: &Plan, a: &ParentArgs) -> i32 {
         .iter()
         .map(|(ji, (name, fl, e, nt))| json!({"job": ji, "engine": name, "flavour": fl, "evaluations": e, "distinct_nontrivial": nt.len()}))
         .collect();
-    let exhaustive = plan.jobs.iter().all(|j| j.engine.enumerate().is_some());
+    let exhaustive = plan.jobs.iter().all(|j| j.engine.enum_len().is_some());
     let ev = json!({
         "property_id": a.property,
         "tier": a.tier.name(),
